@@ -383,6 +383,12 @@ fn relabel<A: Backend, B: Backend>(opts: &Opts, rep: &mut Report) {
 
 pub fn run(opts: &Opts) {
     let mut rep = Report::new("C06");
+    if opts.part.as_deref() == Some("kemzeros") {
+        crate::monitors::c05::kem_leading_zeros::<V1>(opts, &mut rep, "C06");
+        rep.set("rule", json!("k1.seal blobs whose RSA-KEM ciphertext starts with 1-3 zero bytes (forced through the RNG shim): the blob with those zero bytes stripped, or with extra ones, is a different blob and must be refused"));
+        rep.finish(opts);
+        return;
+    }
     for_backends!(opts, backend, opts, &mut rep);
     for_backends!(opts, derived_wrapping_keys, opts, &mut rep);
     macro_rules! pairs {
